@@ -399,6 +399,7 @@ class CompiledSimulation(object):
         self._initialize_mems = self._dll.initialize_mems
         self._initialize_mems.restype = None
         self._mem_lookup = self._dll.lookup
+        self._mem_lookup.argtypes = [ctypes.c_void_p, ctypes.c_uint64]
         self._mem_lookup.restype = ctypes.POINTER(ctypes.c_uint64)
 
     def _limbs(self, w):
